@@ -83,11 +83,18 @@ func verifC01_trim() {
 // C01.window: one step of slidingWindow.write from an arbitrary window: afterwards buf == last cap bytes of old ++ p.
 func verifC01_window() {
 	c := vParam("cap", 8)
-	fill := vChoose("fill", c+1)
+	var fill, n int
+	if vParam("big", 0) == 1 {
+		// the real window size: fill levels at and just below capacity, small and capacity-sized writes
+		fill = c - vChoose("fillBelow", 3)
+		n = []int{0, 1, 2, 3, c - 1, c, c + 1}[vChoose("nIdx", 7)]
+	} else {
+		fill = vChoose("fill", c+1)
+		n = vChoose("n", c+3)
+	}
 	old := vBytes("old", fill)
 	sw := &slidingWindow{buf: make([]byte, 0, c)}
 	sw.buf = append(sw.buf, old...)
-	n := vChoose("n", c+3)
 	p := vBytes("p", n)
 	pcopy := append([]byte{}, p...)
 	sw.write(p)
